@@ -159,11 +159,23 @@ let rec fold_left f l a0 =
   | [] -> a0
   | b :: t -> fold_left f t (f a0 b)
 
+(** val fold_right : ('a2 -> 'a1 -> 'a1) -> 'a1 -> 'a2 list -> 'a1 **)
+
+let rec fold_right f a0 = function
+| [] -> a0
+| b :: t -> f b (fold_right f a0 t)
+
 (** val existsb : ('a1 -> bool) -> 'a1 list -> bool **)
 
 let rec existsb f = function
 | [] -> false
 | a :: l0 -> (||) (f a) (existsb f l0)
+
+(** val forallb : ('a1 -> bool) -> 'a1 list -> bool **)
+
+let rec forallb f = function
+| [] -> true
+| a :: l0 -> (&&) (f a) (forallb f l0)
 
 (** val filter : ('a1 -> bool) -> 'a1 list -> 'a1 list **)
 
@@ -574,6 +586,45 @@ module Z =
     | _ -> Z0
  end
 
+type ascii =
+| Ascii of bool * bool * bool * bool * bool * bool * bool * bool
+
+(** val eqb0 : ascii -> ascii -> bool **)
+
+let eqb0 a b =
+  let Ascii (a0, a1, a2, a3, a4, a5, a6, a7) = a in
+  let Ascii (b0, b1, b2, b3, b4, b5, b6, b7) = b in
+  if if if if if if if eqb a0 b0 then eqb a1 b1 else false
+                 then eqb a2 b2
+                 else false
+              then eqb a3 b3
+              else false
+           then eqb a4 b4
+           else false
+        then eqb a5 b5
+        else false
+     then eqb a6 b6
+     else false
+  then eqb a7 b7
+  else false
+
+type string =
+| EmptyString
+| String of ascii * string
+
+(** val eqb1 : string -> string -> bool **)
+
+let rec eqb1 s1 s2 =
+  match s1 with
+  | EmptyString ->
+    (match s2 with
+     | EmptyString -> true
+     | String (_, _) -> false)
+  | String (c1, s1') ->
+    (match s2 with
+     | EmptyString -> false
+     | String (c2, s2') -> if eqb0 c1 c2 then eqb1 s1' s2' else false)
+
 (** val lex_compare : z list -> z list -> comparison **)
 
 let rec lex_compare a b =
@@ -602,6 +653,13 @@ let lex_leb a b =
   match lex_compare a b with
   | Gt -> false
   | _ -> true
+
+(** val lex_eqb : z list -> z list -> bool **)
+
+let lex_eqb a b =
+  match lex_compare a b with
+  | Eq -> true
+  | _ -> false
 
 (** val be_bytes : nat -> z -> z list **)
 
@@ -1752,6 +1810,44 @@ let db_scan_from_pinned d k fwd =
   bind (it_seek_pinned d.root k fwd) (fun r ->
     scan_loop (scan_fuel d.root) fwd (fun _ -> false) None (fst r) [])
 
+(** val ev_allocs : ev -> nat **)
+
+let ev_allocs = function
+| ENone -> O
+| ERootLeaf -> S O
+| EAdd _ -> S O
+| ERemoveLeaf _ -> O
+| EShrink from -> (match from with
+                   | C4 -> O
+                   | _ -> S O)
+| ERemoveRoot -> O
+| _ -> S (S O)
+
+(** val db_insert_allocs : db -> z list -> z list -> nat res **)
+
+let db_insert_allocs d k v =
+  match d.root with
+  | Some n ->
+    bind (insert_go (fuel_for k) n k v d.next_id O) (fun r -> Ok
+      (match r with
+       | Some p -> let (_, e) = p in ev_allocs e
+       | None -> O))
+  | None -> Ok (S O)
+
+(** val db_remove_allocs : db -> z list -> nat res **)
+
+let db_remove_allocs d k =
+  match d.root with
+  | Some n ->
+    (match n with
+     | Leaf (_, _, _) -> Ok O
+     | Inode (_, _, _) ->
+       bind (remove_go (fuel_for k) n k O) (fun r -> Ok
+         (match r with
+          | RmNotFound -> O
+          | RmReplaced (_, e) -> ev_allocs e)))
+  | None -> Ok O
+
 type tid = nat
 
 (** val w_is_free : z -> bool **)
@@ -2150,3 +2246,745 @@ let pending s =
 
 let registered_count s =
   Z.of_nat (length (filter (fun t -> t.t_reg) s.q_thr))
+
+type lop =
+| LGet of z list
+| LInsert of z list * z list
+| LRemove of z list
+
+type lres =
+| LVal of z list option
+| LBool of bool
+
+type call = { c_op : lop; c_res : lres; c_inv : nat; c_ret : nat }
+
+type smap = (z list * z list) list
+
+(** val s_get : z list -> smap -> z list option **)
+
+let rec s_get k = function
+| [] -> None
+| p :: m' -> let (k', v) = p in if lex_eqb k k' then Some v else s_get k m'
+
+(** val s_del : z list -> smap -> smap **)
+
+let rec s_del k = function
+| [] -> []
+| p :: m' ->
+  let (k', v) = p in
+  if lex_eqb k k' then s_del k m' else (k', v) :: (s_del k m')
+
+(** val s_apply : smap -> lop -> smap * lres **)
+
+let s_apply m = function
+| LGet k -> (m, (LVal (s_get k m)))
+| LInsert (k, v) ->
+  (match s_get k m with
+   | Some _ -> (m, (LBool false))
+   | None -> (((k, v) :: m), (LBool true)))
+| LRemove k ->
+  (match s_get k m with
+   | Some _ -> ((s_del k m), (LBool true))
+   | None -> (m, (LBool false)))
+
+(** val lres_eqb : lres -> lres -> bool **)
+
+let lres_eqb a b =
+  match a with
+  | LVal o ->
+    (match o with
+     | Some x ->
+       (match b with
+        | LVal o0 -> (match o0 with
+                      | Some y -> lex_eqb x y
+                      | None -> false)
+        | LBool _ -> false)
+     | None ->
+       (match b with
+        | LVal o0 -> (match o0 with
+                      | Some _ -> false
+                      | None -> true)
+        | LBool _ -> false))
+  | LBool x -> (match b with
+                | LVal _ -> false
+                | LBool y -> eqb x y)
+
+(** val seq_legal : smap -> call list -> bool **)
+
+let rec seq_legal m = function
+| [] -> true
+| c :: l' ->
+  let (m', r) = s_apply m c.c_op in
+  (&&) (lres_eqb r c.c_res) (seq_legal m' l')
+
+(** val rt_ok : call list -> bool **)
+
+let rec rt_ok = function
+| [] -> true
+| c :: l' ->
+  (&&) (forallb (fun d -> negb (Nat.ltb d.c_ret c.c_inv)) l') (rt_ok l')
+
+(** val nodupb : nat list -> bool **)
+
+let rec nodupb = function
+| [] -> true
+| x :: l' -> (&&) (negb (existsb (Nat.eqb x) l')) (nodupb l')
+
+(** val pick : call list -> nat list -> call list option **)
+
+let pick h order =
+  fold_right (fun i acc ->
+    match nth_error h i with
+    | Some c -> (match acc with
+                 | Some l -> Some (c :: l)
+                 | None -> None)
+    | None -> None) (Some []) order
+
+(** val lin_ok : smap -> call list -> nat list -> bool **)
+
+let lin_ok init h order =
+  (&&) ((&&) (Nat.eqb (length order) (length h)) (nodupb order))
+    (match pick h order with
+     | Some l -> (&&) (rt_ok l) (seq_legal init l)
+     | None -> false)
+
+type pexpr =
+| PArg
+| POther
+| PSelf
+| PExchangeOther
+| PInc
+| PDec
+| PAddN
+| PSubN
+
+type pstmt =
+| PInit of pexpr
+| PSet of pexpr
+| PReg
+| PUnreg
+| PSelfGuard
+| PRetSelf
+| PCopyToResult
+| PCallSelf of string
+| PCallResult of string
+| PRetResult
+| PRetPtr
+| PRetDeref
+| PRetIndex
+| PRetBin of string
+| PRetOtherPlusN
+| POtherStmt of string
+
+(** val find_pm :
+    (string * pstmt list) list -> string -> pstmt list option **)
+
+let rec find_pm tbl f =
+  match tbl with
+  | [] -> None
+  | p :: tbl' -> let (n, b) = p in if eqb1 n f then Some b else find_pm tbl' f
+
+type oid = nat
+
+type pstate = { vals : (oid * z) list; reg : z list }
+
+(** val lookup : oid -> (oid * z) list -> z option **)
+
+let rec lookup i = function
+| [] -> None
+| p :: l' -> let (j, v) = p in if Nat.eqb i j then Some v else lookup i l'
+
+(** val update : oid -> z -> (oid * z) list -> (oid * z) list **)
+
+let rec update i v = function
+| [] -> []
+| p :: l' ->
+  let (j, w) = p in
+  if Nat.eqb i j then (j, v) :: l' else (j, w) :: (update i v l')
+
+(** val remove_obj : oid -> (oid * z) list -> (oid * z) list **)
+
+let rec remove_obj i = function
+| [] -> []
+| p :: l' ->
+  let (j, w) = p in if Nat.eqb i j then l' else (j, w) :: (remove_obj i l')
+
+(** val remove_one : z -> z list -> z list **)
+
+let rec remove_one x = function
+| [] -> []
+| y :: l' -> if Z.eqb x y then l' else y :: (remove_one x l')
+
+type pop =
+| OpCtorPtr of oid * z
+| OpCtorDefault of oid
+| OpCtorCopy of oid * oid
+| OpCtorMove of oid * oid
+| OpAssignCopy of oid * oid
+| OpAssignMove of oid * oid
+| OpPreInc of oid
+| OpPreDec of oid
+| OpPostInc of oid * oid
+| OpPostDec of oid * oid
+| OpAddAssign of oid * z
+| OpSubAssign of oid * z
+| OpAdd of oid * oid * z
+| OpSub of oid * oid * z
+| OpDtor of oid
+
+(** val eval : pexpr -> z -> z -> z -> z **)
+
+let eval e self other arg =
+  match e with
+  | PArg -> arg
+  | PSelf -> self
+  | PInc -> Z.add self (Zpos XH)
+  | PDec -> Z.sub self (Zpos XH)
+  | PAddN -> Z.add self arg
+  | PSubN -> Z.sub self arg
+  | _ -> other
+
+(** val run :
+    (string * pstmt list) list -> nat -> pstmt list -> oid -> oid option -> z
+    -> oid -> pstate -> pstate option **)
+
+let rec run tbl fuel b self other arg res0 s =
+  match fuel with
+  | O -> None
+  | S fuel' ->
+    (match b with
+     | [] -> Some s
+     | st0 :: b' ->
+       (match st0 with
+        | PInit e ->
+          let sv = match lookup self s.vals with
+                   | Some v -> v
+                   | None -> Z0 in
+          let ov =
+            match other with
+            | Some o -> (match lookup o s.vals with
+                         | Some v -> v
+                         | None -> Z0)
+            | None -> Z0
+          in
+          let v' = eval e sv ov arg in
+          let vs =
+            match st0 with
+            | PInit _ ->
+              (match lookup self s.vals with
+               | Some _ -> update self v' s.vals
+               | None -> (self, v') :: s.vals)
+            | _ -> update self v' s.vals
+          in
+          let vs0 =
+            match e with
+            | PExchangeOther ->
+              (match other with
+               | Some o -> update o Z0 vs
+               | None -> vs)
+            | _ -> vs
+          in
+          run tbl fuel' b' self other arg res0 { vals = vs0; reg = s.reg }
+        | PSet e ->
+          let sv = match lookup self s.vals with
+                   | Some v -> v
+                   | None -> Z0 in
+          let ov =
+            match other with
+            | Some o -> (match lookup o s.vals with
+                         | Some v -> v
+                         | None -> Z0)
+            | None -> Z0
+          in
+          let v' = eval e sv ov arg in
+          let vs =
+            match st0 with
+            | PInit _ ->
+              (match lookup self s.vals with
+               | Some _ -> update self v' s.vals
+               | None -> (self, v') :: s.vals)
+            | _ -> update self v' s.vals
+          in
+          let vs0 =
+            match e with
+            | PExchangeOther ->
+              (match other with
+               | Some o -> update o Z0 vs
+               | None -> vs)
+            | _ -> vs
+          in
+          run tbl fuel' b' self other arg res0 { vals = vs0; reg = s.reg }
+        | PReg ->
+          (match lookup self s.vals with
+           | Some v ->
+             run tbl fuel' b' self other arg res0 { vals = s.vals; reg =
+               (if Z.eqb v Z0 then s.reg else v :: s.reg) }
+           | None -> None)
+        | PUnreg ->
+          (match lookup self s.vals with
+           | Some v ->
+             run tbl fuel' b' self other arg res0 { vals = s.vals; reg =
+               (if Z.eqb v Z0 then s.reg else remove_one v s.reg) }
+           | None -> None)
+        | PSelfGuard ->
+          (match other with
+           | Some o ->
+             if Nat.eqb o self
+             then Some s
+             else run tbl fuel' b' self other arg res0 s
+           | None -> None)
+        | PCopyToResult ->
+          (match find_pm tbl (String ((Ascii (true, true, false, false,
+                   false, true, true, false)), (String ((Ascii (false, false,
+                   true, false, true, true, true, false)), (String ((Ascii
+                   (true, true, true, true, false, true, true, false)),
+                   (String ((Ascii (false, true, false, false, true, true,
+                   true, false)), (String ((Ascii (true, true, true, true,
+                   true, false, true, false)), (String ((Ascii (true, true,
+                   false, false, false, true, true, false)), (String ((Ascii
+                   (true, true, true, true, false, true, true, false)),
+                   (String ((Ascii (false, false, false, false, true, true,
+                   true, false)), (String ((Ascii (true, false, false, true,
+                   true, true, true, false)), EmptyString)))))))))))))))))) with
+           | Some cb ->
+             (match run tbl fuel' cb res0 (Some self) Z0 res0 s with
+              | Some s' -> run tbl fuel' b' self other arg res0 s'
+              | None -> None)
+           | None -> None)
+        | PCallSelf m ->
+          (match find_pm tbl m with
+           | Some mb ->
+             (match run tbl fuel' mb self None arg res0 s with
+              | Some s' -> run tbl fuel' b' self other arg res0 s'
+              | None -> None)
+           | None -> None)
+        | PCallResult m ->
+          (match find_pm tbl m with
+           | Some mb ->
+             (match run tbl fuel' mb res0 None arg res0 s with
+              | Some s' -> run tbl fuel' b' self other arg res0 s'
+              | None -> None)
+           | None -> None)
+        | POtherStmt _ -> None
+        | _ -> Some s))
+
+(** val call0 :
+    (string * pstmt list) list -> string -> oid -> oid option -> z -> oid ->
+    pstate -> pstate option **)
+
+let call0 tbl name self other arg res0 s =
+  match find_pm tbl name with
+  | Some b ->
+    run tbl (S (S (S (S (S (S (S (S (S (S (S (S O)))))))))))) b self other
+      arg res0 s
+  | None -> None
+
+(** val pstep :
+    (string * pstmt list) list -> pstate -> pop -> pstate option **)
+
+let pstep tbl s = function
+| OpCtorPtr (d, p) ->
+  call0 tbl (String ((Ascii (true, true, false, false, false, true, true,
+    false)), (String ((Ascii (false, false, true, false, true, true, true,
+    false)), (String ((Ascii (true, true, true, true, false, true, true,
+    false)), (String ((Ascii (false, true, false, false, true, true, true,
+    false)), (String ((Ascii (true, true, true, true, true, false, true,
+    false)), (String ((Ascii (false, false, false, false, true, true, true,
+    false)), (String ((Ascii (false, false, true, false, true, true, true,
+    false)), (String ((Ascii (false, true, false, false, true, true, true,
+    false)), EmptyString)))))))))))))))) d None p d s
+| OpCtorDefault d -> Some { vals = ((d, Z0) :: s.vals); reg = s.reg }
+| OpCtorCopy (d, src) ->
+  call0 tbl (String ((Ascii (true, true, false, false, false, true, true,
+    false)), (String ((Ascii (false, false, true, false, true, true, true,
+    false)), (String ((Ascii (true, true, true, true, false, true, true,
+    false)), (String ((Ascii (false, true, false, false, true, true, true,
+    false)), (String ((Ascii (true, true, true, true, true, false, true,
+    false)), (String ((Ascii (true, true, false, false, false, true, true,
+    false)), (String ((Ascii (true, true, true, true, false, true, true,
+    false)), (String ((Ascii (false, false, false, false, true, true, true,
+    false)), (String ((Ascii (true, false, false, true, true, true, true,
+    false)), EmptyString)))))))))))))))))) d (Some src) Z0 d s
+| OpCtorMove (d, src) ->
+  call0 tbl (String ((Ascii (true, true, false, false, false, true, true,
+    false)), (String ((Ascii (false, false, true, false, true, true, true,
+    false)), (String ((Ascii (true, true, true, true, false, true, true,
+    false)), (String ((Ascii (false, true, false, false, true, true, true,
+    false)), (String ((Ascii (true, true, true, true, true, false, true,
+    false)), (String ((Ascii (true, false, true, true, false, true, true,
+    false)), (String ((Ascii (true, true, true, true, false, true, true,
+    false)), (String ((Ascii (false, true, true, false, true, true, true,
+    false)), (String ((Ascii (true, false, true, false, false, true, true,
+    false)), EmptyString)))))))))))))))))) d (Some src) Z0 d s
+| OpAssignCopy (d, src) ->
+  call0 tbl (String ((Ascii (true, false, false, false, false, true, true,
+    false)), (String ((Ascii (true, true, false, false, true, true, true,
+    false)), (String ((Ascii (true, true, false, false, true, true, true,
+    false)), (String ((Ascii (true, false, false, true, false, true, true,
+    false)), (String ((Ascii (true, true, true, false, false, true, true,
+    false)), (String ((Ascii (false, true, true, true, false, true, true,
+    false)), (String ((Ascii (true, true, true, true, true, false, true,
+    false)), (String ((Ascii (true, true, false, false, false, true, true,
+    false)), (String ((Ascii (true, true, true, true, false, true, true,
+    false)), (String ((Ascii (false, false, false, false, true, true, true,
+    false)), (String ((Ascii (true, false, false, true, true, true, true,
+    false)), EmptyString)))))))))))))))))))))) d (Some src) Z0 d s
+| OpAssignMove (d, src) ->
+  call0 tbl (String ((Ascii (true, false, false, false, false, true, true,
+    false)), (String ((Ascii (true, true, false, false, true, true, true,
+    false)), (String ((Ascii (true, true, false, false, true, true, true,
+    false)), (String ((Ascii (true, false, false, true, false, true, true,
+    false)), (String ((Ascii (true, true, true, false, false, true, true,
+    false)), (String ((Ascii (false, true, true, true, false, true, true,
+    false)), (String ((Ascii (true, true, true, true, true, false, true,
+    false)), (String ((Ascii (true, false, true, true, false, true, true,
+    false)), (String ((Ascii (true, true, true, true, false, true, true,
+    false)), (String ((Ascii (false, true, true, false, true, true, true,
+    false)), (String ((Ascii (true, false, true, false, false, true, true,
+    false)), EmptyString)))))))))))))))))))))) d (Some src) Z0 d s
+| OpPreInc d ->
+  call0 tbl (String ((Ascii (false, false, false, false, true, true, true,
+    false)), (String ((Ascii (false, true, false, false, true, true, true,
+    false)), (String ((Ascii (true, false, true, false, false, true, true,
+    false)), (String ((Ascii (true, true, true, true, true, false, true,
+    false)), (String ((Ascii (true, false, false, true, false, true, true,
+    false)), (String ((Ascii (false, true, true, true, false, true, true,
+    false)), (String ((Ascii (true, true, false, false, false, true, true,
+    false)), EmptyString)))))))))))))) d None Z0 d s
+| OpPreDec d ->
+  call0 tbl (String ((Ascii (false, false, false, false, true, true, true,
+    false)), (String ((Ascii (false, true, false, false, true, true, true,
+    false)), (String ((Ascii (true, false, true, false, false, true, true,
+    false)), (String ((Ascii (true, true, true, true, true, false, true,
+    false)), (String ((Ascii (false, false, true, false, false, true, true,
+    false)), (String ((Ascii (true, false, true, false, false, true, true,
+    false)), (String ((Ascii (true, true, false, false, false, true, true,
+    false)), EmptyString)))))))))))))) d None Z0 d s
+| OpPostInc (d, r) ->
+  call0 tbl (String ((Ascii (false, false, false, false, true, true, true,
+    false)), (String ((Ascii (true, true, true, true, false, true, true,
+    false)), (String ((Ascii (true, true, false, false, true, true, true,
+    false)), (String ((Ascii (false, false, true, false, true, true, true,
+    false)), (String ((Ascii (true, true, true, true, true, false, true,
+    false)), (String ((Ascii (true, false, false, true, false, true, true,
+    false)), (String ((Ascii (false, true, true, true, false, true, true,
+    false)), (String ((Ascii (true, true, false, false, false, true, true,
+    false)), EmptyString)))))))))))))))) d None Z0 r s
+| OpPostDec (d, r) ->
+  call0 tbl (String ((Ascii (false, false, false, false, true, true, true,
+    false)), (String ((Ascii (true, true, true, true, false, true, true,
+    false)), (String ((Ascii (true, true, false, false, true, true, true,
+    false)), (String ((Ascii (false, false, true, false, true, true, true,
+    false)), (String ((Ascii (true, true, true, true, true, false, true,
+    false)), (String ((Ascii (false, false, true, false, false, true, true,
+    false)), (String ((Ascii (true, false, true, false, false, true, true,
+    false)), (String ((Ascii (true, true, false, false, false, true, true,
+    false)), EmptyString)))))))))))))))) d None Z0 r s
+| OpAddAssign (d, n) ->
+  call0 tbl (String ((Ascii (true, false, false, false, false, true, true,
+    false)), (String ((Ascii (false, false, true, false, false, true, true,
+    false)), (String ((Ascii (false, false, true, false, false, true, true,
+    false)), (String ((Ascii (true, true, true, true, true, false, true,
+    false)), (String ((Ascii (true, false, false, false, false, true, true,
+    false)), (String ((Ascii (true, true, false, false, true, true, true,
+    false)), (String ((Ascii (true, true, false, false, true, true, true,
+    false)), (String ((Ascii (true, false, false, true, false, true, true,
+    false)), (String ((Ascii (true, true, true, false, false, true, true,
+    false)), (String ((Ascii (false, true, true, true, false, true, true,
+    false)), EmptyString)))))))))))))))))))) d None n d s
+| OpSubAssign (d, n) ->
+  call0 tbl (String ((Ascii (true, true, false, false, true, true, true,
+    false)), (String ((Ascii (true, false, true, false, true, true, true,
+    false)), (String ((Ascii (false, true, false, false, false, true, true,
+    false)), (String ((Ascii (true, true, true, true, true, false, true,
+    false)), (String ((Ascii (true, false, false, false, false, true, true,
+    false)), (String ((Ascii (true, true, false, false, true, true, true,
+    false)), (String ((Ascii (true, true, false, false, true, true, true,
+    false)), (String ((Ascii (true, false, false, true, false, true, true,
+    false)), (String ((Ascii (true, true, true, false, false, true, true,
+    false)), (String ((Ascii (false, true, true, true, false, true, true,
+    false)), EmptyString)))))))))))))))))))) d None n d s
+| OpAdd (d, r, n) ->
+  call0 tbl (String ((Ascii (true, false, false, false, false, true, true,
+    false)), (String ((Ascii (false, false, true, false, false, true, true,
+    false)), (String ((Ascii (false, false, true, false, false, true, true,
+    false)), EmptyString)))))) d None n r s
+| OpSub (d, r, n) ->
+  call0 tbl (String ((Ascii (true, true, false, false, true, true, true,
+    false)), (String ((Ascii (true, false, true, false, true, true, true,
+    false)), (String ((Ascii (false, true, false, false, false, true, true,
+    false)), EmptyString)))))) d None n r s
+| OpDtor d ->
+  (match call0 tbl (String ((Ascii (false, false, true, false, false, true,
+           true, false)), (String ((Ascii (false, false, true, false, true,
+           true, true, false)), (String ((Ascii (true, true, true, true,
+           false, true, true, false)), (String ((Ascii (false, true, false,
+           false, true, true, true, false)), EmptyString)))))))) d None Z0 d s with
+   | Some s' -> Some { vals = (remove_obj d s'.vals); reg = s'.reg }
+   | None -> None)
+
+(** val fresh : oid -> pstate -> bool **)
+
+let fresh i s =
+  match lookup i s.vals with
+  | Some _ -> false
+  | None -> true
+
+(** val live : oid -> pstate -> bool **)
+
+let live i s =
+  negb (fresh i s)
+
+(** val pop_ok : pstate -> pop -> bool **)
+
+let pop_ok s = function
+| OpCtorPtr (d, _) -> fresh d s
+| OpCtorDefault d -> fresh d s
+| OpCtorCopy (d, src) -> (&&) (fresh d s) (live src s)
+| OpCtorMove (d, src) -> (&&) (fresh d s) (live src s)
+| OpAssignCopy (d, src) ->
+  (&&) ((&&) (live d s) (live src s)) (negb (Nat.eqb d src))
+| OpAssignMove (d, src) ->
+  (&&) ((&&) (live d s) (live src s)) (negb (Nat.eqb d src))
+| OpPreInc d -> live d s
+| OpPreDec d -> live d s
+| OpPostInc (d, r) -> (&&) (live d s) (fresh r s)
+| OpPostDec (d, r) -> (&&) (live d s) (fresh r s)
+| OpAddAssign (d, _) -> live d s
+| OpSubAssign (d, _) -> live d s
+| OpAdd (d, r, _) -> (&&) (live d s) (fresh r s)
+| OpSub (d, r, _) -> (&&) (live d s) (fresh r s)
+| OpDtor d -> live d s
+
+(** val pinit : pstate **)
+
+let pinit =
+  { vals = []; reg = [] }
+
+(** val quiescent_allowed : pstate -> bool **)
+
+let quiescent_allowed s =
+  match s.reg with
+  | [] -> true
+  | _ :: _ -> false
+
+(** val ptr_methods : (string * pstmt list) list **)
+
+let ptr_methods =
+  ((String ((Ascii (true, true, false, false, false, true, true, false)),
+    (String ((Ascii (false, false, true, false, true, true, true, false)),
+    (String ((Ascii (true, true, true, true, false, true, true, false)),
+    (String ((Ascii (false, true, false, false, true, true, true, false)),
+    (String ((Ascii (true, true, true, true, true, false, true, false)),
+    (String ((Ascii (false, false, false, false, true, true, true, false)),
+    (String ((Ascii (false, false, true, false, true, true, true, false)),
+    (String ((Ascii (false, true, false, false, true, true, true, false)),
+    EmptyString)))))))))))))))), ((PInit PArg) :: (PReg :: []))) :: (((String
+    ((Ascii (true, true, false, false, false, true, true, false)), (String
+    ((Ascii (false, false, true, false, true, true, true, false)), (String
+    ((Ascii (true, true, true, true, false, true, true, false)), (String
+    ((Ascii (false, true, false, false, true, true, true, false)), (String
+    ((Ascii (true, true, true, true, true, false, true, false)), (String
+    ((Ascii (true, true, false, false, false, true, true, false)), (String
+    ((Ascii (true, true, true, true, false, true, true, false)), (String
+    ((Ascii (false, false, false, false, true, true, true, false)), (String
+    ((Ascii (true, false, false, true, true, true, true, false)),
+    EmptyString)))))))))))))))))), ((PInit
+    POther) :: (PReg :: []))) :: (((String ((Ascii (true, true, false, false,
+    false, true, true, false)), (String ((Ascii (false, false, true, false,
+    true, true, true, false)), (String ((Ascii (true, true, true, true,
+    false, true, true, false)), (String ((Ascii (false, true, false, false,
+    true, true, true, false)), (String ((Ascii (true, true, true, true, true,
+    false, true, false)), (String ((Ascii (true, false, true, true, false,
+    true, true, false)), (String ((Ascii (true, true, true, true, false,
+    true, true, false)), (String ((Ascii (false, true, true, false, true,
+    true, true, false)), (String ((Ascii (true, false, true, false, false,
+    true, true, false)), EmptyString)))))))))))))))))), ((PInit
+    PExchangeOther) :: [])) :: (((String ((Ascii (false, false, true, false,
+    false, true, true, false)), (String ((Ascii (false, false, true, false,
+    true, true, true, false)), (String ((Ascii (true, true, true, true,
+    false, true, true, false)), (String ((Ascii (false, true, false, false,
+    true, true, true, false)), EmptyString)))))))),
+    (PUnreg :: [])) :: (((String ((Ascii (true, false, false, false, false,
+    true, true, false)), (String ((Ascii (true, true, false, false, true,
+    true, true, false)), (String ((Ascii (true, true, false, false, true,
+    true, true, false)), (String ((Ascii (true, false, false, true, false,
+    true, true, false)), (String ((Ascii (true, true, true, false, false,
+    true, true, false)), (String ((Ascii (false, true, true, true, false,
+    true, true, false)), (String ((Ascii (true, true, true, true, true,
+    false, true, false)), (String ((Ascii (true, true, false, false, false,
+    true, true, false)), (String ((Ascii (true, true, true, true, false,
+    true, true, false)), (String ((Ascii (false, false, false, false, true,
+    true, true, false)), (String ((Ascii (true, false, false, true, true,
+    true, true, false)), EmptyString)))))))))))))))))))))),
+    (PSelfGuard :: (PUnreg :: ((PSet
+    POther) :: (PReg :: (PRetSelf :: [])))))) :: (((String ((Ascii (true,
+    false, false, false, false, true, true, false)), (String ((Ascii (true,
+    true, false, false, true, true, true, false)), (String ((Ascii (true,
+    true, false, false, true, true, true, false)), (String ((Ascii (true,
+    false, false, true, false, true, true, false)), (String ((Ascii (true,
+    true, true, false, false, true, true, false)), (String ((Ascii (false,
+    true, true, true, false, true, true, false)), (String ((Ascii (true,
+    true, true, true, true, false, true, false)), (String ((Ascii (true,
+    false, true, true, false, true, true, false)), (String ((Ascii (true,
+    true, true, true, false, true, true, false)), (String ((Ascii (false,
+    true, true, false, true, true, true, false)), (String ((Ascii (true,
+    false, true, false, false, true, true, false)),
+    EmptyString)))))))))))))))))))))), (PUnreg :: ((PSet
+    PExchangeOther) :: (PRetSelf :: [])))) :: (((String ((Ascii (false,
+    false, true, false, false, true, true, false)), (String ((Ascii (true,
+    false, true, false, false, true, true, false)), (String ((Ascii (false,
+    true, false, false, true, true, true, false)), (String ((Ascii (true,
+    false, true, false, false, true, true, false)), (String ((Ascii (false,
+    true, true, false, false, true, true, false)), EmptyString)))))))))),
+    (PRetDeref :: [])) :: (((String ((Ascii (true, false, false, true, false,
+    true, true, false)), (String ((Ascii (false, true, true, true, false,
+    true, true, false)), (String ((Ascii (false, false, true, false, false,
+    true, true, false)), (String ((Ascii (true, false, true, false, false,
+    true, true, false)), (String ((Ascii (false, false, false, true, true,
+    true, true, false)), EmptyString)))))))))),
+    (PRetIndex :: [])) :: (((String ((Ascii (true, false, false, false,
+    false, true, true, false)), (String ((Ascii (false, true, false, false,
+    true, true, true, false)), (String ((Ascii (false, true, false, false,
+    true, true, true, false)), (String ((Ascii (true, true, true, true,
+    false, true, true, false)), (String ((Ascii (true, true, true, false,
+    true, true, true, false)), EmptyString)))))))))),
+    (PRetPtr :: [])) :: (((String ((Ascii (false, false, false, false, true,
+    true, true, false)), (String ((Ascii (false, true, false, false, true,
+    true, true, false)), (String ((Ascii (true, false, true, false, false,
+    true, true, false)), (String ((Ascii (true, true, true, true, true,
+    false, true, false)), (String ((Ascii (true, false, false, true, false,
+    true, true, false)), (String ((Ascii (false, true, true, true, false,
+    true, true, false)), (String ((Ascii (true, true, false, false, false,
+    true, true, false)), EmptyString)))))))))))))), (PUnreg :: ((PSet
+    PInc) :: (PReg :: (PRetSelf :: []))))) :: (((String ((Ascii (false,
+    false, false, false, true, true, true, false)), (String ((Ascii (true,
+    true, true, true, false, true, true, false)), (String ((Ascii (true,
+    true, false, false, true, true, true, false)), (String ((Ascii (false,
+    false, true, false, true, true, true, false)), (String ((Ascii (true,
+    true, true, true, true, false, true, false)), (String ((Ascii (true,
+    false, false, true, false, true, true, false)), (String ((Ascii (false,
+    true, true, true, false, true, true, false)), (String ((Ascii (true,
+    true, false, false, false, true, true, false)),
+    EmptyString)))))))))))))))), (PCopyToResult :: ((PCallSelf (String
+    ((Ascii (false, false, false, false, true, true, true, false)), (String
+    ((Ascii (false, true, false, false, true, true, true, false)), (String
+    ((Ascii (true, false, true, false, false, true, true, false)), (String
+    ((Ascii (true, true, true, true, true, false, true, false)), (String
+    ((Ascii (true, false, false, true, false, true, true, false)), (String
+    ((Ascii (false, true, true, true, false, true, true, false)), (String
+    ((Ascii (true, true, false, false, false, true, true, false)),
+    EmptyString))))))))))))))) :: (PRetResult :: [])))) :: (((String ((Ascii
+    (false, false, false, false, true, true, true, false)), (String ((Ascii
+    (false, true, false, false, true, true, true, false)), (String ((Ascii
+    (true, false, true, false, false, true, true, false)), (String ((Ascii
+    (true, true, true, true, true, false, true, false)), (String ((Ascii
+    (false, false, true, false, false, true, true, false)), (String ((Ascii
+    (true, false, true, false, false, true, true, false)), (String ((Ascii
+    (true, true, false, false, false, true, true, false)),
+    EmptyString)))))))))))))), (PUnreg :: ((PSet
+    PDec) :: (PReg :: (PRetSelf :: []))))) :: (((String ((Ascii (false,
+    false, false, false, true, true, true, false)), (String ((Ascii (true,
+    true, true, true, false, true, true, false)), (String ((Ascii (true,
+    true, false, false, true, true, true, false)), (String ((Ascii (false,
+    false, true, false, true, true, true, false)), (String ((Ascii (true,
+    true, true, true, true, false, true, false)), (String ((Ascii (false,
+    false, true, false, false, true, true, false)), (String ((Ascii (true,
+    false, true, false, false, true, true, false)), (String ((Ascii (true,
+    true, false, false, false, true, true, false)),
+    EmptyString)))))))))))))))), (PCopyToResult :: ((PCallSelf (String
+    ((Ascii (false, false, false, false, true, true, true, false)), (String
+    ((Ascii (false, true, false, false, true, true, true, false)), (String
+    ((Ascii (true, false, true, false, false, true, true, false)), (String
+    ((Ascii (true, true, true, true, true, false, true, false)), (String
+    ((Ascii (false, false, true, false, false, true, true, false)), (String
+    ((Ascii (true, false, true, false, false, true, true, false)), (String
+    ((Ascii (true, true, false, false, false, true, true, false)),
+    EmptyString))))))))))))))) :: (PRetResult :: [])))) :: (((String ((Ascii
+    (true, false, false, false, false, true, true, false)), (String ((Ascii
+    (false, false, true, false, false, true, true, false)), (String ((Ascii
+    (false, false, true, false, false, true, true, false)), (String ((Ascii
+    (true, true, true, true, true, false, true, false)), (String ((Ascii
+    (true, false, false, false, false, true, true, false)), (String ((Ascii
+    (true, true, false, false, true, true, true, false)), (String ((Ascii
+    (true, true, false, false, true, true, true, false)), (String ((Ascii
+    (true, false, false, true, false, true, true, false)), (String ((Ascii
+    (true, true, true, false, false, true, true, false)), (String ((Ascii
+    (false, true, true, true, false, true, true, false)),
+    EmptyString)))))))))))))))))))), (PUnreg :: ((PSet
+    PAddN) :: (PReg :: (PRetSelf :: []))))) :: (((String ((Ascii (true,
+    false, false, false, false, true, true, false)), (String ((Ascii (false,
+    false, true, false, false, true, true, false)), (String ((Ascii (false,
+    false, true, false, false, true, true, false)), EmptyString)))))),
+    (PCopyToResult :: ((PCallResult (String ((Ascii (true, false, false,
+    false, false, true, true, false)), (String ((Ascii (false, false, true,
+    false, false, true, true, false)), (String ((Ascii (false, false, true,
+    false, false, true, true, false)), (String ((Ascii (true, true, true,
+    true, true, false, true, false)), (String ((Ascii (true, false, false,
+    false, false, true, true, false)), (String ((Ascii (true, true, false,
+    false, true, true, true, false)), (String ((Ascii (true, true, false,
+    false, true, true, true, false)), (String ((Ascii (true, false, false,
+    true, false, true, true, false)), (String ((Ascii (true, true, true,
+    false, false, true, true, false)), (String ((Ascii (false, true, true,
+    true, false, true, true, false)),
+    EmptyString))))))))))))))))))))) :: (PRetResult :: [])))) :: (((String
+    ((Ascii (true, true, false, false, true, true, true, false)), (String
+    ((Ascii (true, false, true, false, true, true, true, false)), (String
+    ((Ascii (false, true, false, false, false, true, true, false)), (String
+    ((Ascii (true, true, true, true, true, false, true, false)), (String
+    ((Ascii (true, false, false, false, false, true, true, false)), (String
+    ((Ascii (true, true, false, false, true, true, true, false)), (String
+    ((Ascii (true, true, false, false, true, true, true, false)), (String
+    ((Ascii (true, false, false, true, false, true, true, false)), (String
+    ((Ascii (true, true, true, false, false, true, true, false)), (String
+    ((Ascii (false, true, true, true, false, true, true, false)),
+    EmptyString)))))))))))))))))))), (PUnreg :: ((PSet
+    PSubN) :: (PReg :: (PRetSelf :: []))))) :: (((String ((Ascii (true, true,
+    false, false, true, true, true, false)), (String ((Ascii (true, false,
+    true, false, true, true, true, false)), (String ((Ascii (false, true,
+    false, false, false, true, true, false)), EmptyString)))))),
+    (PCopyToResult :: ((PCallResult (String ((Ascii (true, true, false,
+    false, true, true, true, false)), (String ((Ascii (true, false, true,
+    false, true, true, true, false)), (String ((Ascii (false, true, false,
+    false, false, true, true, false)), (String ((Ascii (true, true, true,
+    true, true, false, true, false)), (String ((Ascii (true, false, false,
+    false, false, true, true, false)), (String ((Ascii (true, true, false,
+    false, true, true, true, false)), (String ((Ascii (true, true, false,
+    false, true, true, true, false)), (String ((Ascii (true, false, false,
+    true, false, true, true, false)), (String ((Ascii (true, true, true,
+    false, false, true, true, false)), (String ((Ascii (false, true, true,
+    true, false, true, true, false)),
+    EmptyString))))))))))))))))))))) :: (PRetResult :: [])))) :: (((String
+    ((Ascii (false, false, true, false, false, true, true, false)), (String
+    ((Ascii (true, false, false, true, false, true, true, false)), (String
+    ((Ascii (false, true, true, false, false, true, true, false)), (String
+    ((Ascii (false, true, true, false, false, true, true, false)),
+    EmptyString)))))))), ((PRetBin (String ((Ascii (true, false, true, true,
+    false, true, false, false)), EmptyString))) :: [])) :: (((String ((Ascii
+    (true, false, true, false, false, true, true, false)), (String ((Ascii
+    (true, false, false, false, true, true, true, false)), EmptyString)))),
+    ((PRetBin (String ((Ascii (true, false, true, true, true, true, false,
+    false)), (String ((Ascii (true, false, true, true, true, true, false,
+    false)), EmptyString))))) :: [])) :: (((String ((Ascii (false, false,
+    true, true, false, true, true, false)), (String ((Ascii (true, false,
+    true, false, false, true, true, false)), EmptyString)))), ((PRetBin
+    (String ((Ascii (false, false, true, true, true, true, false, false)),
+    (String ((Ascii (true, false, true, true, true, true, false, false)),
+    EmptyString))))) :: [])) :: (((String ((Ascii (true, true, true, false,
+    false, true, true, false)), (String ((Ascii (true, false, true, false,
+    false, true, true, false)), EmptyString)))), ((PRetBin (String ((Ascii
+    (false, true, true, true, true, true, false, false)), (String ((Ascii
+    (true, false, true, true, true, true, false, false)),
+    EmptyString))))) :: [])) :: (((String ((Ascii (false, false, true, true,
+    false, true, true, false)), (String ((Ascii (false, false, true, false,
+    true, true, true, false)), EmptyString)))), ((PRetBin (String ((Ascii
+    (false, false, true, true, true, true, false, false)),
+    EmptyString))) :: [])) :: (((String ((Ascii (true, true, true, false,
+    false, true, true, false)), (String ((Ascii (false, false, true, false,
+    true, true, true, false)), EmptyString)))), ((PRetBin (String ((Ascii
+    (false, true, true, true, true, true, false, false)),
+    EmptyString))) :: [])) :: (((String ((Ascii (true, true, true, false,
+    false, true, true, false)), (String ((Ascii (true, false, true, false,
+    false, true, true, false)), (String ((Ascii (false, false, true, false,
+    true, true, true, false)), EmptyString)))))),
+    (PRetPtr :: [])) :: [])))))))))))))))))))))))
